@@ -6,11 +6,13 @@ import Driver.Util
   asm vec  <k> <mp:0|1> <workers> <chunk> <order> <elems>
   asm hist  <event> <event> …       (single-layer matrix cache)
   asm vhist <event> <event> …       (load-vector cache)
+  asm cfg <quad_order> <pw_exact:0|1>   the configuration text `str((quad_order, pw_exact))` of the file name
 
   element      id:t0:t1            lists: comma separated, `-` = empty
   order        f | r | x<n>        completion order of the chunks: forward, reversed, rotated by n
-  event        call@<curve>@<k>@<mp>@<workers>@<chunk>@<order>@<w|n|p>@<tests>@<trials>
-               crash@… (same fields) | trunc@<curve>[@<k>]@<tests>@<trials> | rm@… | garble@…
+  event        call@<curve>@<var>@<mp>@<workers>@<chunk>@<order>@<w|n|p>@<tests>@<trials>
+               crash@… (same fields) | trunc@<curve>[@<var>]@<tests>@<trials> | rm@… | garble@…
+  var          <k> | <k>/<quad_order>/<pw_exact:0|1>    token variant and operator configuration (default 12, 0)
   token leaf   bil trial test = (k+1)·2²² + 2048·id(trial) + id(test) + 1, and 0 on acausal pairs for kind `c`
                lin elem       = (k+1)·2²² + id(elem) + 1
 -/
@@ -80,8 +82,21 @@ def curveName (c : Nat) : List Char := 'c' :: (toString c).toList
 
 def reprTE (e : TE) : List Char := (toString e.id).toList ++ [')']
 
-/-- configurations (curve number, variant `k`): the file name sees the curve only -/
-def slFamily : Family (Nat × Nat) TE Nat := ⟨fun c => curveName c.1, fun c => tokenLeaf true c.2⟩
+/-- token variant `k`, `quad_order`, `pw_exact` -/
+abbrev Var := Nat × Nat × Bool
+
+def parseVar? (s : String) : Option Var :=
+  match s.splitOn "/" with
+  | [k] => do let k ← k.toNat?; some (k, 12, false)
+  | [k, q, p] => do
+    let k ← k.toNat?; let q ← q.toNat?
+    if p = "1" then some (k, q, true) else if p = "0" then some (k, q, false) else none
+  | _ => none
+
+/-- configurations (curve number, token variant `k`, `quad_order`, `pw_exact`): the file name sees the curve
+and `str((quad_order, pw_exact))`, not the token variant -/
+def slFamily : Family (Nat × Var) TE Nat :=
+  ⟨fun c => curveName c.1, fun c => cfgText c.2.2.1 c.2.2.2, fun c => tokenLeaf true c.2.1⟩
 
 /-- the `problem` string handed to `InitialOperator` names the data `u0` (variant `k`), as in example.py -/
 def problemName (c : Nat × Nat) : List Char := curveName c.1 ++ 'p' :: (toString c.2).toList
@@ -92,15 +107,15 @@ def vecFamily : VecFamily (Nat × Nat) TE Nat :=
 abbrev SLKey := List Char × Nat × Nat × List Char
 abbrev VKey := List Char × Nat × List Char
 
-def slS : Spec SLKey ((Nat × Nat) × List TE × List TE) How (Mat Nat) := slSpec slFamily id reprTE
+def slS : Spec SLKey ((Nat × Var) × List TE × List TE) How (Mat Nat) := slSpec slFamily id reprTE
 def vecS : Spec VKey ((Nat × Nat) × List TE) How (List Nat) := vecSpec vecFamily id reprTE
 
 /-- one event of a history, generic in the routine: returns the event and the file name it concerns -/
-def parseEvent? {K I : Type} (mkInp : Nat → Nat → List TE → List TE → I) (key : I → K)
+def parseEvent? {K I : Type} (mkInp : Nat → Var → List TE → List TE → I) (key : I → K)
     (size : I → Nat) (s : String) : Option (Event K I How × K) :=
   match s.splitOn "@" with
   | [kind, c, k, mp, w, ch, ord, sv, ts, tr] => do
-    let c ← c.toNat?; let k ← k.toNat?
+    let c ← c.toNat?; let k ← parseVar? k
     let ts ← parseTEs? ts; let tr ← parseTEs? tr
     let inp := mkInp c k ts tr
     let how ← parseHow? mp w ch ord (size inp)
@@ -109,7 +124,7 @@ def parseEvent? {K I : Type} (mkInp : Nat → Nat → List TE → List TE → I)
     else if kind = "crash" then some (.crash inp how sv, key inp)
     else none
   | [kind, c, k, ts, tr] => do
-    let c ← c.toNat?; let k ← k.toNat?
+    let c ← c.toNat?; let k ← parseVar? k
     let ts ← parseTEs? ts; let tr ← parseTEs? tr
     let k := key (mkInp c k ts tr)
     if kind = "trunc" then some (.truncate k, k)
@@ -119,7 +134,7 @@ def parseEvent? {K I : Type} (mkInp : Nat → Nat → List TE → List TE → I)
   | [kind, c, ts, tr] => do
     let c ← c.toNat?
     let ts ← parseTEs? ts; let tr ← parseTEs? tr
-    let k := key (mkInp c 0 ts tr)
+    let k := key (mkInp c (0, 12, false) ts tr)
     if kind = "trunc" then some (.truncate k, k)
     else if kind = "rm" then some (.remove k, k)
     else if kind = "garble" then some (.garble k, k)
@@ -167,9 +182,13 @@ def asmCmd (args : List String) : String :=
     | some evs => runHist slS (fun i r => showMatRes i.2.1.length i.2.2.length r) inpOfEvent evs
     | none => "bad-event"
   | "asm" :: "vhist" :: evs =>
-    match evs.mapM (parseEvent? (fun c k ts _ => ((c, k), ts)) vecS.key (fun i => i.2.length)) with
+    match evs.mapM (parseEvent? (fun c k ts _ => ((c, k.1), ts)) vecS.key (fun i => i.2.length)) with
     | some evs => runHist vecS (fun _ r => showVecRes r) inpOfEvent evs
     | none => "bad-event"
+  | ["asm", "cfg", q, p] =>
+    match q.toNat? with
+    | some q => if p = "1" || p = "0" then String.ofList (cfgText q (p = "1")) else "bad-args"
+    | none => "bad-args"
   | _ => "bad-op"
 
 end Driver
